@@ -744,8 +744,8 @@ def run(ck):
         ck.violation(key, what, rep, kind == "viol")
     # text-level differences: tied to a failing call of the same law when there is one
     text_keys = set()
-    for law, diffs in sorted(text_diffs.items(), key=lambda kv: (kv[0] not in viol_by_law, kv[0])):
-        itf, a, b = diffs[0]
+    flat = [(law, diffs, x) for law, diffs in text_diffs.items() for x in diffs]
+    for law, diffs, (itf, a, b) in sorted(flat, key=lambda t: (t[0] not in viol_by_law, t[0])):
         rep = {"law": law, "interface": itf, "model_skeleton_line": a, "emitted_skeleton_line": b,
                "all_differences": [list(x) for x in diffs[:10]],
                "mfront_file": [d for d in descs if d.law == law][0].mfront()}
